@@ -6,6 +6,7 @@ package sim
 // and kubelet, under API / provider faults, cache lag, lost responses, restarts and clock jumps.
 
 import (
+	"sigs.k8s.io/karpenter/pkg/test/v1alpha1"
 	"fmt"
 	"sort"
 	"strings"
@@ -93,6 +94,7 @@ func (p *lifeProfile) Run(s *Sim) {
 	p.e.CP.OnCreate = append(p.e.CP.OnCreate, p.onProviderCreate)
 	s.store.OnWrite = append(s.store.OnWrite, p.onWrite)
 	s.OnTaskDone(p.onTaskDone)
+	s.AddObserver(p.observeHealthReset)
 	defer func() { nodepoolhealth.VerifObserve = nil }()
 
 	s.Boot(p.e.BaseCtx(), p.build)
@@ -197,7 +199,20 @@ func (p *lifeProfile) op() {
 		o := l[ch.Pick("life.pick", len(l))]
 		_ = st.Delete(o, DeleteOpts{}, nil)
 		p.note("user deletes NodeClaim %s", o.GetName())
-	case 6: // NodePool template edit (generation bump => registration health reset)
+	case 6: // NodePool template edit or NodeClass edit (generation bump => registration health reset)
+		if ch.Pick("life.editnodeclass", 3) == 2 {
+			ncl := &v1alpha1.TestNodeClass{}
+			ncl.Name = "default"
+			st.Mutate(st.GVK(ncl), keyOf(ncl), func(o client.Object) {
+				c := o.(*v1alpha1.TestNodeClass)
+				if c.Spec.Tags == nil {
+					c.Spec.Tags = map[string]string{}
+				}
+				c.Spec.Tags["rev"] = fmt.Sprint(p.s.step)
+			})
+			p.note("edit NodeClass default")
+			return
+		}
 		pool := p.pools[ch.Pick("life.pool", len(p.pools))]
 		st.Mutate(gvkNodePool, keyOf(pool), func(o client.Object) {
 			np := o.(*v1.NodePool)
@@ -602,6 +617,72 @@ func modelStatus(w []bool) nodepoolhealth.Status {
 		return nodepoolhealth.StatusUnhealthy
 	}
 	return nodepoolhealth.StatusHealthy
+}
+
+// checkHealthReset: C20's reset clause, driven by what the registration-health reconcile read rather than by the
+// tracker calls under test: when the NodePool or NodeClass generation it read differs from the one the condition /
+// status had recorded, the window is empty afterwards (tracker Unknown, no earlier outcome counts any more).
+// observeHealthReset runs before every step: a registration-health reconcile parked at its status patch has just
+// decided about the reset, and no other task has run since (judging at the end of the task would see outcomes that
+// other reconciles recorded while the patch was in flight).
+func (p *lifeProfile) observeHealthReset() {
+	for _, c := range p.s.sortedParked() {
+		if c.Task.Ctrl.Name != "nodepool.registrationhealth" || c.Phase != 0 || c.Verb != "status-patch" || c.Task.Notes["resetChecked"] != nil {
+			continue
+		}
+		c.Task.Notes["resetChecked"] = true
+		p.checkHealthReset(c.Task)
+	}
+}
+
+func (p *lifeProfile) checkHealthReset(t *Task) {
+	s := p.s
+	if t.Inc != s.inc {
+		return
+	}
+	var np *v1.NodePool
+	var ncl *v1alpha1.TestNodeClass
+	for _, r := range t.Reads {
+		if r.Err != nil || len(r.Objs) == 0 {
+			continue
+		}
+		switch o := r.Objs[0].(type) {
+		case *v1.NodePool:
+			np = o
+		case *v1alpha1.TestNodeClass:
+			ncl = o
+		}
+	}
+	if np == nil || ncl == nil {
+		return
+	}
+	c := np.StatusConditions().Get(v1.ConditionTypeNodeRegistrationHealthy)
+	if c != nil && np.Status.NodeClassObservedGeneration == ncl.GetGeneration() && np.Generation == c.ObservedGeneration {
+		return
+	}
+	s.Probe("health-reset-expected")
+	st, _ := p.e.Parts["npState"].(*nodepoolhealth.State)
+	if st == nil {
+		return
+	}
+	if got := st.Status(np.UID); got != nodepoolhealth.StatusUnknown {
+		s.Violate("C20", "reset-missed", "pool %s: the registration-health reconcile read NodePool generation %d (condition observed %v) and NodeClass generation %d (status observed %d), so the launch window had to be reset, but the tracker still reports %s from earlier outcomes %s", np.UID, np.Generation, func() interface{} {
+			if c == nil {
+				return "none"
+			}
+			return c.ObservedGeneration
+		}(), ncl.GetGeneration(), np.Status.NodeClassObservedGeneration, statusName(got), winString(p.win[np.UID]))
+		return
+	}
+	if len(p.win[np.UID]) > 0 {
+		// the hook did not see a reset call although one was due and the tracker reports Unknown: a window of one
+		// failure also reports Unknown, so look one outcome ahead with the what-if
+		if st.DryRun(np.UID, false).Status() != nodepoolhealth.StatusHealthy && st.DryRun(np.UID, false).Status() != nodepoolhealth.StatusUnknown {
+			s.Violate("C20", "reset-missed", "pool %s: a reset was due (NodePool / NodeClass generation changed) but earlier outcomes %s still count: one more failure would already make the pool Unhealthy", np.UID, winString(p.win[np.UID]))
+			return
+		}
+		p.win[np.UID] = nil
+	}
 }
 
 func pushWin(w []bool, b bool) []bool {
